@@ -90,6 +90,23 @@ class HGen:
         self.consumed = False
 
 
+class HGenFn:
+    """a generator object made by calling a generator function from interpreted code: its body runs in a thread of its own that
+    is resumed for one item at a time (strict hand-over, never concurrently), so effects and exceptions of the body happen
+    between the consumer's steps exactly as in CPython"""
+    kind = "genfn"
+
+    def __init__(self, fv, fr):
+        import threading
+        self.fv, self.fr = fv, fr
+        self.thread = None
+        self.done = False
+        self.killed = False
+        self.msg = None
+        self.to_gen = threading.Semaphore(0)
+        self.to_con = threading.Semaphore(0)
+
+
 class HExc:
     """exception instance"""
     kind = "exc"
